@@ -240,6 +240,7 @@ type item struct {
 	goKey string
 	hash  string
 	explicit bool
+	extern string // Coq module that supplies this item (cfg directive `extern pkg.Var Module`); no text is emitted
 }
 
 type gen struct {
@@ -1654,6 +1655,13 @@ func (g *gen) global(v *types.Var, from *item) string {
 	}
 	it := &item{kind: kGlobal, name: name, deps: map[string]bool{}, goKey: short + "." + v.Name()}
 	g.items[name] = it
+	if mod, ok := externs[it.goKey]; ok {
+		// a table filled in by init(): supplied by a hand-written model module under the
+		// same Coq name (tied to Go by correspondence), so that the functions reading it translate.
+		it.extern = mod
+		it.hash = "extern:" + mod
+		return name
+	}
 	func() {
 		defer func() {
 			if r := recover(); r != nil {
@@ -1803,10 +1811,20 @@ func readCfg(path string) (units []string, entries []cfgEntry) {
 			units = append(units, cur)
 			continue
 		}
+		if strings.HasPrefix(ln, "extern ") {
+			// extern pkg.Var Coq.Module : package-level variable supplied by a hand-written module
+			if f := strings.Fields(ln); len(f) == 3 {
+				externs[f[1]] = f[2]
+			}
+			continue
+		}
 		entries = append(entries, cfgEntry{cur, ln})
 	}
 	return
 }
+
+// externs: goKey of a package-level variable -> Coq module (under Geo) that defines it.
+var externs = map[string]string{}
 
 func main() {
 	flag.Parse()
@@ -1826,8 +1844,29 @@ func main() {
 		allFuncs = append(allFuncs, fn)
 	}
 	sort.Slice(allFuncs, func(i, j int) bool { return w.funcDecl[allFuncs[i]].Pos() < w.funcDecl[allFuncs[j]].Pos() })
+	type wantVar struct {
+		v    *types.Var
+		unit string
+	}
+	var wantVars []wantVar
 	for _, e := range entries {
 		matched := false
+		if strings.HasPrefix(e.pat, "var ") {
+			// var pkg.Name : translate a never-assigned package-level variable (table) into this unit
+			key := strings.TrimSpace(e.pat[4:])
+			if dot := strings.Index(key, "."); dot > 0 {
+				if p := w.short[key[:dot]]; p != nil {
+					if v, ok := p.pkg.Scope().Lookup(key[dot+1:]).(*types.Var); ok {
+						wantVars = append(wantVars, wantVar{v, e.unit})
+						matched = true
+					}
+				}
+			}
+			if !matched {
+				g.notes = append(g.notes, "MISSING "+key)
+			}
+			continue
+		}
 		for _, fn := range allFuncs {
 			k := funcKey(fn)
 			if strings.HasSuffix(e.pat, "*") {
@@ -1845,6 +1884,14 @@ func main() {
 		}
 	}
 	unitOfKey := map[string]string{}
+	for _, wv := range wantVars {
+		holder := &item{deps: map[string]bool{}}
+		n := g.global(wv.v, holder)
+		g.items[n].explicit = true
+		if _, ok := unitOfKey[g.items[n].goKey]; !ok {
+			unitOfKey[g.items[n].goKey] = wv.unit
+		}
+	}
 	for _, wn := range wants {
 		k := funcKey(wn.fn)
 		if _, ok := unitOfKey[k]; !ok {
@@ -1945,6 +1992,9 @@ func main() {
 			for d := range it.deps {
 				di := g.items[d]
 				if _, configured := unitOfKey[di.goKey]; configured {
+					continue
+				}
+				if di.extern != "" {
 					continue
 				}
 				if di.unit == "" || better(it.unit, di.unit, pkgOfKey(di.goKey)) {
@@ -2048,11 +2098,14 @@ func main() {
 			fmt.Fprintf(&b, "(* GENERATED by harness/cmd/extract from %s — do not edit. *)\n", *repo)
 			b.WriteString("From Coq Require Import ZArith List Bool Floats.\nFrom Geo Require Import Base.GoPrim.\nImport ListNotations.\n")
 			needUnits := map[string]bool{}
+			needMods := map[string]bool{}
 			for _, n := range g.order {
 				it := g.items[n]
-				if it.unit == u {
+				if it.unit == u && it.extern == "" {
 					for d := range it.deps {
-						if du := g.items[d].unit; du != u {
+						if m := g.items[d].extern; m != "" {
+							needMods[m] = true
+						} else if du := g.items[d].unit; du != u {
 							needUnits[du] = true
 						}
 					}
@@ -2063,10 +2116,18 @@ func main() {
 					fmt.Fprintf(&b, "From Geo Require Export Gen.%s.\n", pu)
 				}
 			}
+			mods := []string{}
+			for m := range needMods {
+				mods = append(mods, m)
+			}
+			sort.Strings(mods)
+			for _, m := range mods {
+				fmt.Fprintf(&b, "From Geo Require Export %s.\n", m)
+			}
 			b.WriteString("Local Open Scope bool_scope.\n\n")
 			for _, n := range g.order {
 				it := g.items[n]
-				if it.unit == u {
+				if it.unit == u && it.extern == "" {
 					fmt.Fprintf(&b, "(* %s *)\n%s\n", it.goKey, it.text)
 				}
 			}
